@@ -481,6 +481,12 @@ def r12_5(ctx, rep):
     from ..core import strip_docstring as _sd
     for name, conv in (("floatnum", {"float"}), ("number", {"int", "float"})):
         f = prog.fn(f"scanner.Scanner.{name}")
+        # a numeric literal is converted from its TEXT, once: int(...) / float(...) are applied to the lexeme slice only (an integer
+        # that went through float has lost its digits beyond 2**53; a float turned into int is another literal)
+        convs = [c_ for c_ in calls_in(f.node) if isinstance(c_.func, ast.Name) and c_.func.id in ("int", "float", "round", "complex") and c_.args]
+        indirect = [c_ for c_ in convs if unparse(c_.args[0]) != "self.code[self.start:self.current]"]
+        obl(rep, f, indirect[0] if indirect else f.node, "R12.5", not indirect, f"{name}: int / float are applied to the lexeme text only", "",
+            f"`{short(indirect[0], 60) if indirect else ''}` converts a value that is not the lexeme text: the literal is no longer the Python literal it spells")
         try:
             ex0 = SX0.SymExec().run(_sd(f.node.body))
         except AnalysisError as e:
